@@ -281,6 +281,71 @@ def check_inverse(fx, R, f, fwd):
             R.holds('F4', 'ECEFConverter::toWGS84:tolerance-below-resolution', 'tolerance %g is above the spacing of doubles at pi/2 (%.3g)' % (tol, ulp), loc, 'E-INT')
         R.check(0 < tol <= bound, 'F4', 'ECEFConverter::toWGS84:tolerance', 'the iteration stops at |delta| <= %g; with contraction factor about e2 = 0.0069 the latitude error can then reach %.3g rad, above the 1e-9 rad of the statement '
                 '(tolerance must not exceed %.3g)' % (tol, tol * q / (1 - q), bound), 'tolerance %g <= %.3g' % (tol, bound), loc, 'E-INT')
+    # ---- F8: an iteration with a static cap ----------------------------------------------------------------------------------
+    # `i < N && delta > tol`: at most N updates.  The extracted initial guess and update are iterated N times, numerically (50 digits), on the
+    # witness points of the quantifier; the latitude then reached must be within 1e-9 rad of the true one.
+    capN = None
+    if isinstance(cond, tuple) and cond[0] == '&&':
+        for part in cond[1:]:
+            if isinstance(part, tuple) and len(part) == 3 and part[0] in ('<', '<=', '!=') and isinstance(part[1], str):
+                for y in walk(L['c']):
+                    if isinstance(y, dict) and y.get('k') == 'Bin' and y.get('op') == part[0] and const_value(y.get('r')) is not None and strip_casts(y['l']).get('name') == part[1]:
+                        capN = int(const_value(y['r'])) + (1 if part[0] == '<=' else 0)
+    if capN is not None and isinstance(init_lat, sp.Basic):
+        prevS = sp.Symbol('prevLatitude', real=True)
+        st8 = pres[0].copy()
+        st8.locals[ids['latitude']] = prevS
+        try:
+            lb8 = run_block([L['b']], [st8])
+            upd = lb8[0].locals.get(ids['latitude']) if len(lb8) == 1 else None
+        except sym.Unsupported:
+            upd = None
+        alt8 = None
+        if isinstance(upd, sp.Basic):
+            try:
+                Lx = sp.Symbol('reachedLatitude', real=True)
+                st_a = lb8[0].copy()
+                st_a.locals[ids['latitude']] = Lx
+                pa = run_block(post, [st_a])
+                alt8 = pa[0].locals.get(ids.get('altitude')) if len(pa) == 1 else None
+            except sym.Unsupported:
+                alt8 = None
+        if isinstance(upd, sp.Basic):
+            worst = None
+            worst_alt = None
+            try:
+                for la in [sp.pi * sp.nsimplify(d) / 180 for d in WIT['lat_deg']]:
+                    for hh in WIT['heights']:
+                        w = {lat: sp.N(la, 50), lon: sp.Float('0.3', 50), h: sp.Float(hh, 50), a: sp.Float(6378137, 50), e2: sp.Float('0.00669438', 50)}
+                        x = substitute(init_lat).subs(w).evalf(50)
+                        f_ = substitute(upd).subs(w)
+                        xp = x
+                        for _ in range(capN):
+                            xp = x
+                            x = f_.subs(prevS, x).evalf(50)
+                        err = abs(float(x - w[lat]))
+                        if worst is None or err > worst[0]:
+                            worst = (err, la, hh)
+                        if isinstance(alt8, sp.Basic):
+                            av_ = substitute(alt8).subs(w).subs({Lx: x, prevS: xp}).evalf(50)
+                            ea = abs(float(av_ - w[h]))
+                            if worst_alt is None or ea > worst_alt[0]:
+                                worst_alt = (ea, la, hh)
+            except (TypeError, ValueError):
+                worst = None
+            if worst is None:
+                R.undecided('F8', 'ECEFConverter::toWGS84:capped-iteration', 'capped iteration not evaluable on the witness points')
+            elif worst[0] <= 1.2e-9 and worst_alt is not None and worst_alt[0] > 1.5e-3:
+                R.violated('F8', 'ECEFConverter::toWGS84:capped-iteration', 'the latitude iteration runs at most %d times; from the initial guess `%s` the latitude it reaches gives, through the altitude formula, '
+                           'a height that is off by %.2g m at latitude %s deg, height %s m (statement: 1 mm): each pass gains only a factor of about 1/e2 = 150 and the altitude amplifies the remaining latitude '
+                           'error by (N + h) tan(lat); the cap is too low for the heights of the quantifier (-11 km .. 100 km)' % (
+                               capN, str(init_lat)[:100], worst_alt[0], sp.N(worst_alt[1] * 180 / sp.pi, 4), worst_alt[2]), loc, 'E-INT')
+            elif worst[0] > 1.2e-9:
+                R.violated('F8', 'ECEFConverter::toWGS84:capped-iteration', 'the latitude iteration runs at most %d times; from the initial guess `%s` that leaves a latitude error of %.3g rad at latitude %s deg, '
+                           'height %s m (statement: 1e-9 rad; the height follows with (N + h) tan(lat) times that error): each pass gains only a factor of about 1/e2 = 150, so the cap is too low for the heights '
+                           'of the quantifier (-11 km .. 100 km)' % (capN, str(init_lat)[:100], worst[0], sp.N(worst[1] * 180 / sp.pi, 4), worst[2]), loc, 'E-INT')
+            else:
+                R.holds('F8', 'ECEFConverter::toWGS84:capped-iteration', '%d passes from the initial guess leave at most %.2g rad on the witness points' % (capN, worst[0]), loc, 'E-INT')
     # ---- F7: what the epilogue reads is fresh -----------------------------------------------------
     # The loop leaves with |latitude - previous iterate| <= tol, not with equality.  One iteration is read from a symbolic previous iterate
     # `prev`; the epilogue is then read on that state WITHOUT re-synchronising anything, so a value it takes from a local the body computed
